@@ -357,6 +357,14 @@ def select_gate(run):
                     'Candidates.select of droop/candidates.py, translated, is no longer the table lean/Props/C09Prog.lean proves the model selectors equal to')
 
 
+def status_gate(run):
+    return gen_gate(run, 'translator_status', 'gen_status', 'tables',
+                    'Gen.statusWrites = C09.statusWrites, Gen.unelectCallers = C09.unelectCallers, Gen.unpendAsserts = C09.unpendAsserts by rfl; '
+                    'elect_is_the_write, defeat_is_the_write, unpend_is_the_write, unpend_keeps_status, initial_status (lean/Props/C09Status.lean)',
+                    'the assignments to a candidate\'s state / pending anywhere in droop/, or the callers of unelect(), extracted, are no longer the '
+                    'lists lean/Props/C09Status.lean ties to the model')
+
+
 def count_property(run, spec):
     t0 = time.time()
     broken = lean_gate(run, THEOREMS.get(run.prop, []))
@@ -570,7 +578,7 @@ def C03(run):
     count_property(run, dict(rules=STAT + ['wigm', 'cfer-batch', 'wigm-prf-batch', 'mpls', 'scotland'],
                              keys=['C04q', 'C06r', 'C07b', 'C07l', 'C07t', 'C07s'], proj=proj_C03, model_is_spec=True,
                              options_fn=wigm_fixed4, quick=9000, thorough=150000,
-                             extra_gate=lambda run: quota_gate(run) + formula_gate(run) + guard_gate(run) + transfer_gate(run) + keys_gate(run) + select_gate(run)))
+                             extra_gate=lambda run: quota_gate(run) + formula_gate(run) + guard_gate(run) + transfer_gate(run) + keys_gate(run) + select_gate(run) + status_gate(run)))
 
 
 @prop('C04')
@@ -594,7 +602,7 @@ def C08(run):
 
 @prop('C09')
 def C09(run):
-    count_property(run, dict(rules=ALL, keys=['C09'], proj=proj_C09, quick=5000, thorough=150000, extra_gate=lambda run: guard_gate(run) + select_gate(run)))
+    count_property(run, dict(rules=ALL, keys=['C09'], proj=proj_C09, quick=5000, thorough=150000, extra_gate=lambda run: guard_gate(run) + select_gate(run) + status_gate(run)))
 
 
 @prop('C05')
